@@ -24,26 +24,39 @@ import numpy as np  # pylint: disable=g-import-not-at-top
 
 NOQ = {"m": "NOQ", "a": "-", "w": "-"}
 SRQ = {"m": "SRQ", "a": "a8a", "w": "w8c"}
-MODELS = {
-    "chain": {"ops": [{"kind": "EW1", "ins": [0], "outs": [1]}, {"kind": "FIXT", "ins": [1], "outs": [2]}],
-              "trole": ["act", "act", "act"], "gins": [0], "gouts": [2], "codes": ["GELU", "TANH"]},
-    "fc_add": {"ops": [{"kind": "FC", "ins": [0, 1, 2], "outs": [3]}, {"kind": "EW2", "ins": [3, 0], "outs": [4]}],
-               "trole": ["act", "w", "b", "act", "act"], "gins": [0], "gouts": [4], "codes": ["FULLY_CONNECTED", "ADD"]},
-    "two_in": {"ops": [{"kind": "EW2", "ins": [0, 1], "outs": [2]}, {"kind": "SAMEIN0", "ins": [2], "outs": [3]},
-                       {"kind": "EW2", "ins": [3, 4], "outs": [5]}],
-               "trole": ["act", "act", "act", "act", "c", "act"], "gins": [0, 1], "gouts": [2, 5], "codes": ["ADD", "AVERAGE_POOL_2D", "MUL"]},
-}
+def _m(*subs):
+  return {"subs": [{k: v for k, v in sub.items() if k != "codes"} for sub in subs], "codes": [sub["codes"] for sub in subs]}
 
 
-def runtime_view(sub):
-  """Operator list over runtime (activation) tensors only, renumbered 0..NT-1."""
-  acts = [t for t, r in enumerate(sub["trole"]) if r == "act"]
-  idx = {t: i for i, t in enumerate(acts)}
-  ops = []
-  for o in sub["ops"]:
-    ops.append("[ins |-> <<%s>>, outs |-> <<%s>>]" % (", ".join(str(idx[t]) for t in o["ins"] if t in idx), ", ".join(str(idx[t]) for t in o["outs"])))
-  return acts, idx, dict(Ops="<<%s>>" % ", ".join(ops), GIns="<<%s>>" % ", ".join(str(idx[t]) for t in sub["gins"]),
-                         GOuts="<<%s>>" % ", ".join(str(idx[t]) for t in sub["gouts"]), NT=str(len(acts)))
+CHAIN = {"ops": [{"kind": "EW1", "ins": [0], "outs": [1]}, {"kind": "FIXT", "ins": [1], "outs": [2]}],
+         "trole": ["act", "act", "act"], "gins": [0], "gouts": [2], "codes": ["GELU", "TANH"]}
+FC_ADD = {"ops": [{"kind": "FC", "ins": [0, 1, 2], "outs": [3]}, {"kind": "EW2", "ins": [3, 0], "outs": [4]}],
+          "trole": ["act", "w", "b", "act", "act"], "gins": [0], "gouts": [4], "codes": ["FULLY_CONNECTED", "ADD"]}
+TWO_IN = {"ops": [{"kind": "EW2", "ins": [0, 1], "outs": [2]}, {"kind": "SAMEIN0", "ins": [2], "outs": [3]},
+                  {"kind": "EW2", "ins": [3, 4], "outs": [5]}],
+          "trole": ["act", "act", "act", "act", "c", "act"], "gins": [0, 1], "gouts": [2, 5], "codes": ["ADD", "AVERAGE_POOL_2D", "MUL"]}
+MUL1 = {"ops": [{"kind": "EW2", "ins": [0, 1], "outs": [2]}], "trole": ["act", "c", "act"], "gins": [0], "gouts": [2], "codes": ["MUL"]}
+MODELS = {"chain": _m(CHAIN), "fc_add": _m(FC_ADD), "two_in": _m(TWO_IN),
+          # two signatures, calibrated one at a time (the tensors of the other signature keep their - possibly empty - entries)
+          "two_sig": _m(FC_ADD, MUL1)}
+
+
+def runtime_view(model):
+  """Operator list over runtime (activation) tensors only, numbered 0..NT-1 across the subgraphs."""
+  acts, idx = [], {}
+  for si, sub in enumerate(model["subs"]):
+    for t, r in enumerate(sub["trole"]):
+      if r == "act":
+        idx[(si, t)] = len(acts)
+        acts.append((si, t))
+  ops, gins, gouts = [], [], []
+  for si, sub in enumerate(model["subs"]):
+    for o in sub["ops"]:
+      ops.append("[ins |-> <<%s>>, outs |-> <<%s>>, sub |-> %d]" % (", ".join(str(idx[(si, t)]) for t in o["ins"] if (si, t) in idx),
+                                                                     ", ".join(str(idx[(si, t)]) for t in o["outs"]), si + 1))
+    gins.append("<<%s>>" % ", ".join(str(idx[(si, t)]) for t in sub["gins"]))
+    gouts.append("<<%s>>" % ", ".join(str(idx[(si, t)]) for t in sub["gouts"]))
+  return acts, idx, dict(Ops="<<%s>>" % ", ".join(ops), GIns="<<%s>>" % ", ".join(gins), GOuts="<<%s>>" % ", ".join(gouts), NT=str(len(acts)))
 
 
 def ema(values):
@@ -67,29 +80,42 @@ def _replay(item):
   from ai_edge_quantizer import quantizer, qtyping as Q
   from ai_edge_litert import interpreter as tfl
   mname, beh, seed, nsamples = item
-  sub = MODELS[mname]
-  scn = {"subs": [{k: v for k, v in sub.items() if k != "codes"}], "mode": [[SRQ if on else NOQ for on in beh["sel"]]],
-         "inmode": SRQ if beh["selIn"] else NOQ, "outmode": SRQ if beh["selOut"] else NOQ, "codes": [sub["codes"]]}
+  mdl = MODELS[mname]
+  nsub = len(mdl["subs"])
+  # beh["sel"] runs over the operators of all subgraphs in order
+  modes, k = [], 0
+  for sub in mdl["subs"]:
+    modes.append([SRQ if on else NOQ for on in beh["sel"][k:k + len(sub["ops"])]])
+    k += len(sub["ops"])
+  scn = {"subs": mdl["subs"], "mode": modes, "inmode": SRQ if beh["selIn"] else NOQ, "outmode": SRQ if beh["selOut"] else NOQ, "codes": mdl["codes"]}
   model, info = synth.build(scn, seed)
-  acts, idx, _ = runtime_view(sub)
+  acts, idx, _ = runtime_view(mdl)
   rng = np.random.default_rng(seed + 17)
-  # samples of very different magnitude: dropping, duplicating or reordering one moves the average far beyond tolerance
+  from harness import project as _project
+  proj = _project.project(model)
+  sigkey = {s_["sub"]: s_["key"] for s_ in proj["sigs"]}
+  signames = {s_["sub"]: [n for n, _ in s_["ins"]] for s_ in proj["sigs"]}
+  # samples of very different magnitude: dropping, duplicating or reordering one moves the average far beyond tolerance;
+  # sample k exists for every signature (a session feeds it to the signature it calibrates)
   data = []
   for k in range(nsamples):
-    data.append({"x%d" % i: (rng.normal(size=info["shapes"][0][t]) * (1.0 + 2.5 * k)).astype(np.float32) + np.float32(0.3 * k)
-                 for i, t in enumerate(sub["gins"])})
+    data.append({si: {"x%d" % i: (rng.normal(size=info["shapes"][si][t]) * (1.0 + 2.5 * k)).astype(np.float32) + np.float32(0.3 * k)
+                      for i, t in enumerate(sub["gins"])} for si, sub in enumerate(mdl["subs"])})
   # true per-sample min/max from the harness's own interpreter run
   it = tfl.Interpreter(model_content=model, experimental_preserve_all_tensors=True,
                        experimental_op_resolver_type=tfl.OpResolverType.BUILTIN_WITHOUT_DEFAULT_DELEGATES)
-  it.allocate_tensors()
   truth = []
-  name2idx = {d["name"]: d["index"] for d in it.get_tensor_details()}
   for d in data:
-    for i, t in enumerate(sub["gins"]):
-      it.set_tensor(name2idx[info["names"][0][t]], d["x%d" % i])
-    it.invoke()
-    truth.append({t: (float(np.min(it.get_tensor(name2idx[info["names"][0][t]]))), float(np.max(it.get_tensor(name2idx[info["names"][0][t]])))) for t in acts})
-  from harness import project as _project
+    tr = {}
+    for si, sub in enumerate(mdl["subs"]):
+      runner = it.get_signature_runner(sigkey[si])
+      runner(**d[si])
+      details = {x["name"]: x["index"] for x in it.get_tensor_details(subgraph_index=si)} if nsub > 1 else {x["name"]: x["index"] for x in it.get_tensor_details()}
+      for (sj, t) in acts:
+        if sj == si:
+          v = it.get_tensor(details[info["names"][si][t]], subgraph_index=si) if nsub > 1 else it.get_tensor(details[info["names"][si][t]])
+          tr[(si, t)] = (float(np.min(v)), float(np.max(v)))
+    truth.append(tr)
   min_model = _project.read(model)
   q = quantizer.Quantizer(model)
   pipeline.apply_recipe(q, scn, info)
@@ -98,11 +124,11 @@ def _replay(item):
     return out
   results, snaps = [], []
   for r, b in enumerate(beh["base"]):
-    prev, first, last = b
+    prev, first, last, g = b
     prev_obj = results[prev - 1] if prev else None
     before = copy.deepcopy(results)
     try:
-      res = q.calibrate(data[first - 1:last], previous_calibration_result=prev_obj)
+      res = q.calibrate([d[g - 1] for d in data[first - 1:last]], signature_key=sigkey[g - 1] if nsub > 1 else None, previous_calibration_result=prev_obj)
     except Exception as e:  # pylint: disable=broad-except
       out["problems"].append(("raise", "session %d raised %s: %s" % (r + 1, type(e).__name__, str(e)[:120])))
       return out
@@ -113,20 +139,23 @@ def _replay(item):
     results.append(res)
     snaps.append(copy.deepcopy(res))
     # exactness against the predicted fold sequence
-    for t in acts:
+    for (si, t) in acts:
       rr = beh["results"][r]
-      seq = rr[str(idx[t])] if isinstance(rr, dict) else rr[idx[t]]
-      name = info["names"][0][t]
+      seq = rr[str(idx[(si, t)])] if isinstance(rr, dict) else rr[idx[(si, t)]]
+      name = info["names"][si][t]
       if seq == [-1]:
         if name in res and res[name]:
           out["problems"].append(("unselected", "tensor %s of no selected operator has statistics" % name))
         continue
+      if not seq:
+        # selected, but its signature has not been calibrated yet (or only on an empty dataset): an empty entry, no statistics
+        if name in res and res[name]:
+          out["problems"].append(("value", "%s has statistics after session %d although no sample of its signature was folded" % (name, r + 1)))
+        continue
       if name not in res or not res[name]:
         out["problems"].append(("missing", "no statistics for %s after session %d" % (name, r + 1)))
         continue
-      if not seq:
-        continue
-      emn, emx = ema([truth[s - 1][t][0] for s in seq]), ema([truth[s - 1][t][1] for s in seq])
+      emn, emx = ema([truth[s - 1][(si, t)][0] for s in seq]), ema([truth[s - 1][(si, t)][1] for s in seq])
       gmn, gmx = float(np.asarray(res[name]["min"]).flatten()[0]), float(np.asarray(res[name]["max"]).flatten()[0])
       out["compared"] += 1
       tol = 1e-5 * max(1.0, abs(float(emn)), abs(float(emx)))
@@ -134,18 +163,21 @@ def _replay(item):
         out["problems"].append(("value", "%s after session %d: min/max %.6g/%.6g, expected fold %s = %.6g/%.6g" %
                                 (name, r + 1, gmn, gmx, seq, float(emn), float(emx))))
     # constants of selected operators: true per-tensor / per-channel min and max
-    for oi, o in enumerate(sub["ops"]):
-      if not beh["sel"][oi]:
+    oi_g = -1
+    for si, sub in enumerate(mdl["subs"]):
+     for o in sub["ops"]:
+      oi_g += 1
+      if not beh["sel"][oi_g]:
         continue
       for t in o["ins"]:
         if t != -1 and sub["trole"][t] in ("w", "b", "c"):
-          name = info["names"][0][t]
+          name = info["names"][si][t]
           if sub["trole"][t] == "b":
             continue     # biases take input x weight scale: no statistics of their own
           if name not in res or "min" not in res[name]:
             out["problems"].append(("const-missing", "constant %s of a selected operator has no statistics" % name))
             continue
-          tensor = min_model.subgraphs[0].tensors[t]
+          tensor = min_model.subgraphs[si].tensors[t]
           cdata = np.frombuffer(np.asarray(min_model.buffers[tensor.buffer].data, np.uint8).tobytes(), np.float32).reshape(tensor.shape)
           # the static config of these models quantises weights per channel (dimension 0 for FULLY_CONNECTED), generic
           # constant operands per tensor: true min / max along the other dimensions
@@ -177,8 +209,8 @@ def main():
   states = trans = 0
   items = []
   per_model = {}
-  for mname, sub in MODELS.items():
-    _, _, consts = runtime_view(sub)
+  for mname, mdl in MODELS.items():
+    _, _, consts = runtime_view(mdl)
     consts.update(NSamples=str(nsamples), MaxSessions=str(maxsess), Fixes=tlc.tla_str_set(["deepcopy", "once"]))
     r = tlc.run("C09_%s" % mname, "Calib", consts, invariants=["ExactFold", "Resumes", "PrevUntouched", "OnlySelected"],
                 constraints=["EmitB"], workers=16, timeout=3600)
@@ -215,8 +247,9 @@ def main():
       "states": states, "transitions": trans, "traces_validated_against_impl": len(results), "tensor_statistics_compared": compared,
       "models": per_model, "samples_per_dataset": nsamples, "max_sessions": maxsess,
       "evaluations": len(results), "distinct_nontrivial": sum(1 for o in results if o["need_cal"]),
-      "rule": "behaviour = (selection of operators incl. virtual INPUT/OUTPUT, split of the dataset into sessions, which earlier result "
-              "each session resumes from); all enumerated by TLC; non-trivial = the recipe needs calibration",
+      "rule": "behaviour = (selection of operators incl. virtual INPUT/OUTPUT, split of the dataset into sessions - possibly empty ones -, the "
+              "signature each session calibrates, which earlier result each session resumes from - also twice from the same one); all "
+              "enumerated by TLC; non-trivial = the recipe needs calibration",
       "samples": [dict(model=o["model"], behaviour=o["beh"]) for o in results[:2]], "replay_wall_s": round(time.time() - t0, 1),
       "exhaustive": args.tier == "thorough",
   })
